@@ -201,7 +201,7 @@ func checkC17(p *Prog, r *Report) {
 		boundedField[m.Obj().Name()] = bf
 	}
 
-	nExplicit, nMust, nNil, nBounds, nLib := 0, 0, 0, 0, 0
+	nExplicit, nMust, nNil, nBounds, nLib, nNarrow := 0, 0, 0, 0, 0, 0
 	boundSites := map[string]bool{}
 	var pres []nilPre
 	// vbNonNil: in a message handler (which baseapp runs only after the message's ValidateBasic), msg.<field> is non-nil when
@@ -405,6 +405,22 @@ func checkC17(p *Prog, r *Report) {
 						}
 						r.Check(okc, kp("PANIC", "P-lib:"+fname+"→pbkdf2.Key#keyLen-fixed"), "the derived key is later sliced at fixed offsets: the requested key length must be pinned (constant or == constant) before the call; a file-supplied dklen <= 0 or absent panics", site, wit,
 							"keyLen = "+kl.String()+" is file-supplied and not pinned by a dominating equality: derivedKey[16:32] / pbkdf2 itself panic for dklen <= 0 (and the documented contract len = keyLen is violated for < 32)")
+					case isNarrowingIntCall(name) != "":
+						// math.Int/Uint → machine integer: panics when the value does not fit; needs a dominating IsInt64()/IsUint64() on the same value
+						nNarrow++
+						guard := isNarrowingIntCall(name)
+						var recv *Term
+						if len(cc.Args) > 0 {
+							recv = o.Of(cc.Args[0])
+						}
+						wit, ok := "", false
+						if recv != nil {
+							wit, ok = fa.DominatingFact(x.(ssa.Instruction), true, func(t *Term) bool {
+								return t.Op == "call" && strings.HasSuffix(t.Name, ")."+guard) && len(t.Args) > 0 && t.Args[0].Eq(recv)
+							})
+						}
+						r.Check(ok, kp("PANIC", "P-lib:"+fname+"→"+name+"@"+blockTag(fn, b)), "narrowing a big integer (amounts, supplies, balances are unbounded) to a machine integer panics when it does not fit: the call needs a dominating "+guard+"() on the same value", site,
+							"dominated by "+wit, fmt.Sprintf("%s is called on %v with no dominating %s(): a balance or amount above the machine range (e.g. an 18-decimals asset) makes it panic", name, recv, guard))
 					case name == "regexp.MustCompile":
 						nLib++
 						pat, ok := foldString(o.Of(cc.Args[0]))
@@ -625,6 +641,7 @@ func checkC17(p *Prog, r *Report) {
 	r.Floor("P-nil-sites", nNil, 5)
 	r.Floor("P-bounds-sites", nBounds, 3)
 	r.Floor("P-lib-sites", nLib, 4)
+	r.Count("P-lib-narrowing-sites", nNarrow)
 	if r.Tier == "thorough" {
 		bceCrossCheck(p, r, kp, scope, boundSites)
 	}
@@ -960,4 +977,19 @@ func bceCrossCheck(p *Prog, r *Report, kp func(string, string) string, scope []*
 		fmt.Sprintf("%d unproven checks in hand-written module code, %d on in-scope index/slice instructions, %d not enumerated", total, inScope, missing))
 	r.Count("bce-unproven-total", total)
 	r.Count("bce-unproven-in-scope", inScope)
+}
+
+// isNarrowingIntCall: methods of cosmossdk.io/math Int/Uint/LegacyDec that panic when the value does not fit a machine integer;
+// returns the name of the predicate that guards the call ("" when name is not such a method).
+func isNarrowingIntCall(name string) string {
+	if !strings.HasPrefix(name, "(cosmossdk.io/math.") && !strings.HasPrefix(name, "(sdk/types.Int)") && !strings.HasPrefix(name, "(sdk/math.") {
+		return ""
+	}
+	switch {
+	case strings.HasSuffix(name, "Int).Int64"), strings.HasSuffix(name, "Dec).TruncateInt64"), strings.HasSuffix(name, "Dec).RoundInt64"):
+		return "IsInt64"
+	case strings.HasSuffix(name, "Int).Uint64"), strings.HasSuffix(name, "Uint).Uint64"):
+		return "IsUint64"
+	}
+	return ""
 }
